@@ -62,8 +62,9 @@ def is_unbordered_const(sep):
 # understands; anything else is outside the subset (never silently ignored)
 _SIGS = {'find': (1, 2, ()), 'index': (1, 2, ()),
          'startswith': (1, 1, ()), 'endswith': (1, 1, ()),
-         'replace': (2, 2, ()), 'strip': (0, 0, ()), 'split': (1, 2, ()),
+         'replace': (2, 2, ()), 'strip': (0, 1, ()), 'split': (1, 2, ()),
          'join': (1, 1, ()), 'encode': (0, 1, ()),
+         'isdigit': (0, 0, ()), 'rstrip': (0, 1, ()), 'lstrip': (0, 1, ()),
          'decode': (0, 2, ('errors',))}
 
 
@@ -117,6 +118,46 @@ def str_method(it, recv, name, args, kwargs):
                 len(concrete_str(a)):
             ctx.assume(z3.Length(r) >= z3.Length(e))
         return VStr(r, recv.b)
+    if name == 'isdigit':
+        digits = z3.Plus(z3.Range('0', '9'))
+        if recv.b:
+            return VBool(z3.InRe(e, digits))       # bytes: ASCII digits only
+        # str: exact on ASCII-only text, open otherwise (Unicode digits)
+        b = ctx.fresh_bool('isdigit')
+        ascii_only = z3.InRe(e, z3.Star(z3.Range(chr(0), chr(127))))
+        ctx.assume(z3.Implies(z3.InRe(e, digits), b))
+        ctx.assume(z3.Implies(z3.And(ascii_only,
+                                     z3.Not(z3.InRe(e, digits))),
+                              z3.Not(b)))
+        return VBool(b)
+    if name in ('strip', 'rstrip', 'lstrip') and (args or name != 'strip'):
+        # strip of an explicit, concrete character set (or of whitespace
+        # for the one-sided forms): exact
+        if args and args[0] is not VNone:
+            cs = _arg_str(it, recv, args[0])
+            if not is_concrete_str(cs):
+                raise Unsupported('%s of a symbolic character set' % name)
+            chars = concrete_str(cs)
+            if not chars:
+                return recv
+            cls = z3.Union(*[z3.Re(S(c)) for c in chars]) \
+                if len(chars) > 1 else z3.Re(S(chars))
+        else:
+            cls = M.RE_WS
+        left = ctx.fresh_str('lstrip') if name != 'rstrip' else S('')
+        right = ctx.fresh_str('rstrip') if name != 'lstrip' else S('')
+        r = ctx.fresh_str(name)
+        ctx.assume(e == z3.Concat(left, r, right))
+        one = lambda k: z3.SubString(r, k, 1)
+        if name != 'rstrip':
+            ctx.assume(z3.InRe(left, z3.Star(cls)))
+            ctx.assume(z3.Or(z3.Length(r) == 0,
+                             z3.Not(z3.InRe(one(0), cls))))
+        if name != 'lstrip':
+            ctx.assume(z3.InRe(right, z3.Star(cls)))
+            ctx.assume(z3.Or(z3.Length(r) == 0, z3.Not(
+                z3.InRe(one(z3.Length(r) - 1), cls))))
+        return VStr(r, recv.b)
     if name == 'strip' and not args:
         r = ctx.fresh_str('strip')
         a = ctx.fresh_str('lws')
@@ -127,6 +168,9 @@ def str_method(it, recv, name, args, kwargs):
         ctx.assume(z3.InRe(r, z3.Union(
             z3.Re(S('')), M.RE_NONWS,
             z3.Concat(M.RE_NONWS, z3.Star(M.RE_ANY), M.RE_NONWS))))
+        # consequence of the three facts above, stated for the solvers:
+        # the result is empty exactly when the text is all whitespace
+        ctx.assume((z3.Length(r) == 0) == z3.InRe(e, z3.Star(M.RE_WS)))
         return VStr(r, recv.b)
     if name == 'split':
         if not args:
